@@ -1,7 +1,7 @@
 #!/usr/bin/env python3
 """C03: file, mmap and in-memory-buffer reading are observationally equivalent (transcript comparison, ASan)."""
 import os, sys, shutil
-sys.path.insert(0, os.path.join(os.path.dirname(os.path.abspath(__file__)), '..', 'bin'))
+sys.path.insert(0, os.path.join(os.path.dirname(os.path.abspath(__file__)), '..', 'bin')); sys.path.insert(0, os.path.join(os.path.dirname(os.path.abspath(__file__)), '..', 'ref'))
 import vlib
 
 
